@@ -171,6 +171,12 @@ class _CryptConfig:
             if scheme:
                 # normalize scheme option
                 key, value = norm_scheme_option(key, value)
+                if value is None:
+                    # "no value" (e.g. truncate_error = none): same as leaving the option out
+                    # -- also when an earlier item (another spelling of the key) had set it.
+                    # (stored, it reached to_dict() as None and made to_string() fail)
+                    scheme_options.get(scheme, {}).get(cat, {}).pop(key, None)
+                    continue
 
                 # e.g. things like "min_rounds" should never be set cross-scheme
                 # this will be fatal under 2.0.
